@@ -3,14 +3,17 @@ import Pike.Driver.Disp
 import Pike.Driver.Key
 import Pike.Driver.Loc
 import Pike.Driver.Codec
+import Pike.Driver.Resp
 open Pike.Driver
 
 structure St where
   disp : DispSt := {}
+  resp : RespSt := {}
 
 def judgeLine (st : St) (line : String) : St × String :=
   match line.splitOn "\t" with
   | "fresh" :: rest => (st, judgeFresh rest)
+  | "resp" :: rest => let (d, v) := judgeResp st.resp rest; ({ st with resp := d }, v)
   | "codec" :: rest => (st, judgeCodec rest)
   | "loc" :: rest => (st, judgeLoc rest)
   | "key" :: rest => (st, judgeKey rest)
